@@ -378,6 +378,24 @@ func runGen(mode, dir string, withOut bool) (out, msg, inconc string) {
 	}
 	outFile := filepath.Join(ev.Scratch(), "c18.out")
 	os.Remove(outFile)
+	// prior state of the output file (regeneration into an existing file must replace it
+	// completely): absent, empty, the new text plus a stale tail, a shorter text, identical
+	switch ev.Hash("prior", mode, r.Stdout) % 5 {
+	case 1:
+		os.WriteFile(outFile, nil, 0o644)
+		ev.Label("out-prior:empty")
+	case 2:
+		os.WriteFile(outFile, []byte(r.Stdout+"func (suite *GoTestSuite) TestStale() {}\n(* stale *)\n"), 0o644)
+		ev.Label("out-prior:longer")
+	case 3:
+		os.WriteFile(outFile, []byte("stale\n"), 0o644)
+		ev.Label("out-prior:shorter")
+	case 4:
+		os.WriteFile(outFile, []byte(r.Stdout), 0o644)
+		ev.Label("out-prior:identical")
+	default:
+		ev.Label("out-prior:absent")
+	}
 	r2 := modgen.Run(modRoot, 2*time.Minute, nil, testGen, mode, "-out", outFile, dir)
 	if r2.Err != nil || r2.TimedOut {
 		return "", "", "test_gen did not run: " + fmt.Sprint(r2.Err)
